@@ -207,6 +207,7 @@ def main():
         },
         "engines": [
             {"name": "tlc", "path": "spec/", "serves_properties": [c["property_id"] for c in checks], "kind_free_text": "TLA+ specification checked / enumerated / used for trace validation by TLC 1.8.0"},
+            {"name": "apalache", "path": "spec/lemmas/", "serves_properties": ["C09", "C10", "C11"], "kind_free_text": "Apalache 0.58 discharges unbounded integer lemmas about the specification's oracles as single-state checks (duration decomposition, clock round trip, calendar closed form); they strengthen the oracle, no verdict about the code depends on them"},
             {"name": "pipeline", "path": "spec/Pipeline.tla", "serves_properties": ["C01"], "kind_free_text": "implementation-shaped model of the rule engine (scanner, rule order, restart schedule), model-checked on the actual rule table and bound to the code by the cfg(smartcalc_verif) hook and spec/PipelineTrace.tla; non-gating"},
             {"name": "harness", "path": "harness/", "serves_properties": [c["property_id"] for c in checks], "kind_free_text": "Rust executor linking /repo as a path dependency; worker processes with panic, crash and hang capture"},
         ],
